@@ -21,3 +21,5 @@ open HmcVerif.C13
 #print axioms mixture_shift_invariant
 #print axioms mixture_grad_shift_invariant
 #print axioms logspace_change_of_variables_abs
+#print axioms HmcVerif.BoxTree.inside1_meet
+#print axioms HmcVerif.BoxTree.ebox_support
